@@ -71,7 +71,10 @@ def step (cfg : Cfg) (st : St) (line : String) : St × String :=
       let cls := match r.out with
         | .panicEscapes => "panic"
         | .nilNil => "nilnil"
-        | .grpcError c m => "err " ++ c.tag ++ " " ++ m
+        | .grpcError c m =>
+          -- a stream handler that may stop after MaxResults does not look at the entries behind that point:
+          -- once an earlier entry reached the engine, a later entry's rejection is only one possibility
+          (if h.mayStop && engine then "bodyor " else "") ++ "err " ++ c.tag ++ " " ++ m
         | .response => if engine then "body" else "resp"
       let p := match r.out with
         | .nilNil => if h.okNil then 0 else 1
